@@ -43,21 +43,24 @@ claim("C01",
       "and successfully written piece, and whole-program whitelists of the functions that may write to storage or set "
       "Piece.Done; that a block received from a peer is copied to exactly its offset in the piece buffer and only when it "
       "is a block of the piece with the announced length (otherwise the buffer is untouched); and that the web-seed "
-      "downloader releases a buffer only while it owns it (ghost ownership across its function literals). Partial: "
+      "downloader releases a buffer only while it owns it (ghost ownership across its function literals); that the "
+      "on-disk verifier sets a piece's bit only after the hash check accepted exactly that piece's full-length read. Partial: "
       "goroutine interleavings, SHA-1 collision freeness and storage semantics are outside.",
       "DESIGN.md §4 C01")
 
 claim("C05",
       "Proof of the ordering links that can be stated per function: every data file is opened O_SYNC|O_RDWR (bit-exact), "
       "a piece bit is set only in the handler of a write that returned nil (shared with C01), storage writes happen only "
-      "on the piece-writer path. Partial: crash points, bbolt atomicity and kernel durability are assumptions; this family "
+      "on the piece-writer path; the allocator reports a file that did not exist (HasMissing), which is what makes the "
+      "torrent distrust a stored bitfield. Partial: crash points, bbolt atomicity and kernel durability are assumptions; this family "
       "cannot kill a process.",
       "DESIGN.md §4 C05")
 
 claim("C12",
       "Proof of the forced-encryption policy on the accept and dial paths (a successful forced handshake selected RC4 "
       "and returns the MSE stream; no plaintext write or retry when forced), of the cipher-selection checks, and of the "
-      "sync-window arithmetic for every pad length. Partial: DH/RC4 key agreement and byte transparency of the stream "
+      "sync-window arithmetic for every pad length; the handshaker goroutines pass the session's policy flags, the "
+      "info-hash and our peer id to Dial/Accept unchanged and report RC4 after a forced handshake. Partial: DH/RC4 key agreement and byte transparency of the stream "
       "are cryptographic two-party properties outside function contracts.",
       "DESIGN.md §4 C12")
 
@@ -89,7 +92,7 @@ claim("C17",
       "DESIGN.md §4 C17")
 
 claim("C18",
-      "Proof of the admission guards at every site that creates a handshaker (not connected, not banned, not blocked when the blocklist applies) and of the address filters in front of the candidate queue. Also proved: every entry of the address queue's time-ordered slice records its own position after Push, Pop, the nil-compaction (in-place, loop invariant) and the trimming step, with slices.SortFunc modelled as an injective rearrangement, so Pop clears the slot of the address it removed. Partial: the segment tree is recursive pointer code (not under contract); that the external btree holds exactly the slice's entries is assumed, not proved.",
+      "Proof of the admission guards at every site that creates a handshaker (not connected, not banned, not blocked when the blocklist applies) and of the address filters in front of the candidate queue. Also proved: every entry of the address queue's time-ordered slice records its own position after Push, Pop, the nil-compaction (in-place, loop invariant) and the trimming step, with slices.SortFunc modelled as an injective rearrangement, so Pop clears the slot of the address it removed. Partial: the segment tree is recursive pointer code (not under contract); that the external btree holds exactly the slice's entries is assumed, not proved. The blocklist looks up exactly the big-endian value of the four address bytes (non-IPv4 addresses are not looked up), and private ranges are never taken for the host's public address.",
       "DESIGN.md §4 C18")
 
 claim("C07",
@@ -112,7 +115,10 @@ claim("C02",
       "[off, off+len) of the concatenated sections (first section from its inner offset, later sections whole, enough "
       "sections to cover the request), using prefix-sum spec functions; that NewPieces gives every piece its exact length; and "
       "that the block layout of a piece is ascending, within the piece, at most one block size each and never inside a "
-      "padding section. Partial: torrent creation from a directory is outside.",
+      "padding section; that the allocator opens every non-padding file under exactly the metainfo's path and length, "
+      "never opens padding files, and lists the files in metainfo order. Bounded stand-in (labelled, not counted): a "
+      "torrent created from a directory verifies against it, over 134 small layouts. Partial: beyond that bound torrent "
+      "creation is outside.",
       "DESIGN.md §4 C02")
 
 claim("C09",
